@@ -19,7 +19,11 @@ func main() {
 	verbose := flag.Bool("v", false, "verbose")
 	keep := flag.Bool("keep", false, "keep SMT files")
 	only := flag.String("func", "", "only functions whose contract name contains this")
+	replay := flag.String("replay", "", "re-run the replay adapter for a replay file")
 	flag.Parse()
+	if *replay != "" {
+		os.Exit(replayFile(*verif, *root, *replay))
+	}
 	if *prop != "" {
 		seed := 0
 		if s := os.Getenv("VERIF_SEED"); s != "" {
